@@ -262,6 +262,13 @@ def rules(chk, db):
     encrules.size_rules(chk, db, prefix='HS.')
     c16.rules(chk, db, prefix='B.')
     unique_handle(chk, db, 'UH')
+    # a handle over-estimates its size, so a handle inside a table entry is the one value that is always followed by padding:
+    # the padding goes through the writer's Skip, which must emit exactly that many bytes
+    from .. import rwrules
+    chk.rule('ST', 'stream writer / reader primitives move exactly the requested bytes (padding after a handle entry)', minimum=6)
+    chk.rule('SS', 'stream status mapping', minimum=2)
+    rwrules.check_stream_class(chk, db, 'nop::StreamReader', 'reader', 'ST', 'SS')
+    rwrules.check_stream_class(chk, db, 'nop::StreamWriter', 'writer', 'ST', 'SS')
     witness.run(chk, 'c15_handles.cpp', 'HT', 'compile-time witnesses: Handle inside a table entry compiles; UniqueHandle is move-only', minimum=5)
 
 
